@@ -65,3 +65,22 @@ Proof. exact failed_run_no_final. Qed.
 From BB Require Proofs.Compose.
 Example C14_nonvacuous := Compose.C14Demo.C14_nonvacuous.
 Example C14_instance_not_trivial := Compose.C14Demo.C14_instance_not_trivial.
+
+(* ---- source ties (Gen/GMrDel.v is regenerated from bblean/multiround.py on every run) ---- *)
+From BB Require Import Gen.NumpySem Gen.GMrDel Proofs.GenTieMrDel.
+(* what the run deletes at start is the model's purge ... *)
+Theorem C14_source_tie_purge : forall n,
+  is_purged n = (existsb (fun g => glob_match g n) GMrDel.purge_globs
+                 || existsb (String.eqb n) GMrDel.purge_names)%bool.
+Proof. exact tie_purge. Qed.
+(* ... what cleanup deletes is the model's round files ... *)
+Theorem C14_source_tie_cleanup : forall n,
+  is_round_file n = existsb (fun g => glob_match g n) GMrDel.cleanup_globs.
+Proof. exact tie_cleanup. Qed.
+(* ... and the final round writes only "*.pkl.tmp" names, publishes by rename exactly the files of
+   the model's final task in its order, clusters.pkl last *)
+Theorem C14_source_tie_publish : forall sc, pub_ok (GMrDel.final_publish sc) = true.
+Proof. exact tie_publish_ok. Qed.
+Theorem C14_source_tie_publish_names : forall fexp c pairs ws,
+  final_task fexp c pairs = Some ws -> map fst ws = pub_dsts (GMrDel.final_publish (m_save_centroids c)).
+Proof. exact tie_publish_names. Qed.
